@@ -549,6 +549,10 @@ func runC18Tickets(c *harness.Ctx) {
 		c.Reached = true
 		return
 	}
+	if npre > 0 && t.Draw("startfaults", 3) == 2 {
+		runC18TicketStart(c, w)
+		return
+	}
 	snap := w.d.Snapshot()
 	uses := make([]int, len(w.server.Tickets))
 	for i, tk := range w.server.Tickets {
@@ -623,6 +627,76 @@ func runC18Tickets(c *harness.Ctx) {
 	}
 	c.Reached, c.Nontrivial = true, true
 	c.Feature("tickets-crash-enumeration")
+}
+
+// runC18TicketStart: the client's start-up itself under disk faults, with
+// what earlier connections left in the state directory - as it is, or eight
+// days later, when every stored ticket has expired.  Whatever the start does
+// with the store (nothing at all, on the unchanged tree: it only reads), a
+// disk that refuses a write, or a kill at that step, must not keep the client
+// from starting - then or afterwards: tickets are at worst forgotten.
+func runC18TicketStart(c *harness.Ctx, w *ssWorld) {
+	t := c.T
+	aged := t.Draw("startfaults.aged", 2) == 1
+	if aged {
+		c.S.Sleep(8 * 24 * time.Hour)
+		c.Feature("client-start-with-expired-tickets")
+	}
+	snap := w.d.Snapshot()
+	w.d.ResetPlan()
+	if err := w.newFactory(); err != nil {
+		c.Violate("C18/ticket-store-blocks-startup", "fault-free start (tickets expired: %v): ClientFactory fails with %q", aged, err)
+		return
+	}
+	steps := append([]simos.StepRec(nil), w.d.Steps...)
+	c.Info["interrupted"], c.Info["disk_steps"] = fmt.Sprintf("client start (tickets expired: %v)", aged), steps
+	faults := []struct {
+		name string
+		err  error
+	}{{"crash", nil}, {"EIO", syscall.EIO}, {"ENOSPC", syscall.ENOSPC}}
+	for j := 1; j <= len(steps); j++ {
+		torn := []int{0}
+		if steps[j-1].Op == "write" {
+			torn = []int{0, 1, 2, 3, 4, 5 + t.Draw("torn", 4096)}
+		}
+		for _, fk := range faults {
+			for _, ts := range torn {
+				w.d.Restore(snap)
+				w.crashed = false
+				w.d.ResetPlan()
+				w.d.TornSel = ts
+				if fk.err == nil {
+					w.d.CrashAt = j
+				} else {
+					w.d.ErrAt, w.d.ErrKind = j, fk.err
+				}
+				caseID := fmt.Sprintf("ticket-start|%v|step %d/%d %s|%s|torn %d", aged, j, len(steps), steps[j-1].Op, fk.name, tornClass(ts))
+				c.Case(caseID)
+				c.S.Log("case", caseID)
+				c.S.Count("fault."+fk.name+"@ticket-start-"+steps[j-1].Op, 1)
+				c.S.Mute = true
+				err := w.newFactory()
+				c.S.Mute = false
+				what := fmt.Sprintf("client start (tickets expired: %v) with %s at disk step %d of %d (%s %s, torn selector %d)", aged, fk.name, j, len(steps), steps[j-1].Op, steps[j-1].Path, ts)
+				if fk.err != nil && err != nil {
+					c.Violate("C18/ticket-store-blocks-startup", "%s: ClientFactory fails with %q; stored tickets may be forgotten, they must not keep the client from starting", what, err)
+					return
+				}
+				w.d.ResetPlan()
+				w.crashed = false
+				if err := w.newFactory(); err != nil {
+					c.Violate("C18/ticket-store-blocks-startup", "%s; ticket file now %s: the next ClientFactory fails with %q", what, describeSS(w.d), err)
+					return
+				}
+				if !w.connect(ssConnectOpts{}) {
+					return
+				}
+			}
+		}
+	}
+	c.S.Count("ticket_start_disk_steps", int64(len(steps)))
+	c.Reached, c.Nontrivial = true, true
+	c.Feature("ticket-start-enumeration")
 }
 
 func describeSS(d *simos.Disk) string {
